@@ -145,7 +145,7 @@ pub fn run(opts: &Opts) -> i32 {
     for (name, l) in corpus_layouts() { out.nontrivial(hash_str(&name)); check(&l, "corpus_layouts", &env, &mut out); }
   }
   // (3) what the converter produces for generated programs
-  let n = opts.num("programs", if thorough { 200_000 } else { 20_000 });
+  let n = opts.num("programs", if thorough { 1_000_000 } else { 100_000 });
   let g = ProgGen { max_entries: 6 };
   let mut made = 0;
   while made < n {
@@ -166,14 +166,14 @@ pub fn run(opts: &Opts) -> i32 {
     check(&l, "converted_programs", &env, &mut out);
   }
   // (4) random basic layouts over all key codes, extreme repeat parameters
-  let n2 = opts.num("random", if thorough { 200_000 } else { 20_000 });
+  let n2 = opts.num("random", if thorough { 1_000_000 } else { 100_000 });
   for _ in 0..n2 {
     let l = random_basic(&mut rng, &keys);
     out.nontrivial(hash_str(&format!("{:?}", l.mappings)));
     check(&l, "random_basic_layouts", &env, &mut out);
   }
   // (5) very large layouts: thousands of mappings, a saved file of several megabytes
-  let n_big = opts.num("big", if thorough { 6 } else { 1 });
+  let n_big = opts.num("big", if thorough { 6 } else { 2 });
   for _ in 0..n_big {
     let n = rng.range(4000, 12000);
     let mut ms = Vec::with_capacity(n);
